@@ -8,7 +8,8 @@
     `inv_new`, `ccf_check`, `ccf_add_present`, `ccf_add_room`, `ccf_remove_many`, `ccf_remove_last`,
     `ccf_remove`, `ccf_absent`, and for all histories in which no addition has to evict
     (`NoKick`): `ccf_run`, `ccf_exact`.
-  Stated only (`def … : Prop`): `ccf_exact_with_kicks_statement` (kick loop / expansions allowed).
+  Stated here (`def … : Prop`) and proved in `CcfKick.lean` (`ccf_exact_with_kicks`):
+    `ccf_exact_with_kicks_statement` (kick loop / automatic expansions allowed).
 -/
 import PyProb.Lemmas.CcfTable
 namespace PyProb.Ccf
@@ -66,28 +67,28 @@ theorem mem_flatten_bucket {c : Cuckoo} {x : CBin} (h : x ∈ c.buckets.flatten)
   obtain ⟨j, hj, rfl⟩ := List.mem_iff_getElem.1 hl
   exact ⟨j, hj, by rw [bucket_eq c hj]; exact hx⟩
 
-theorem hasFp_iff (c : Cuckoo) (i fp : Nat) : c.hasFp i fp = true ↔ ∃ v, (fp, v) ∈ c.bucket i := by
+theorem ccf_hasFp_iff (c : Cuckoo) (i fp : Nat) : c.hasFp i fp = true ↔ ∃ v, (fp, v) ∈ c.bucket i := by
   simp only [hasFp, List.any_eq_true, beq_iff_eq]
   constructor
   · rintro ⟨⟨a, v⟩, hx, rfl⟩; exact ⟨v, hx⟩
   · rintro ⟨v, hx⟩; exact ⟨_, hx, rfl⟩
 
-theorem present_some {c : Cuckoo} {i1 i2 fp i : Nat} (h : c.present i1 i2 fp = some i) :
+theorem ccf_present_some {c : Cuckoo} {i1 i2 fp i : Nat} (h : c.present i1 i2 fp = some i) :
     (i = i1 ∨ i = i2) ∧ ∃ v, (fp, v) ∈ c.bucket i := by
   unfold present at h
   split at h
-  · rename_i h1; cases h; exact ⟨Or.inl rfl, (hasFp_iff _ _ _).1 h1⟩
+  · rename_i h1; cases h; exact ⟨Or.inl rfl, (ccf_hasFp_iff _ _ _).1 h1⟩
   · split at h
-    · rename_i h2; cases h; exact ⟨Or.inr rfl, (hasFp_iff _ _ _).1 h2⟩
+    · rename_i h2; cases h; exact ⟨Or.inr rfl, (ccf_hasFp_iff _ _ _).1 h2⟩
     · cases h
 
-theorem present_none {G : Nat → Nat} {c : Cuckoo} (inv : Inv G c) {fp : Nat}
+theorem ccf_present_none {G : Nat → Nat} {c : Cuckoo} (inv : Inv G c) {fp : Nat}
     (h : c.present (indices G c fp).1 (indices G c fp).2 fp = none) : fp ∉ c.buckets.flatten.map (·.1) := by
   intro hc
   obtain ⟨⟨a, v⟩, hx, rfl⟩ := List.mem_map.1 hc
   obtain ⟨j, hj, hxj⟩ := mem_flatten_bucket hx
   have hp := inv.2.2.2.2.1 j hj _ hxj
-  have hf : c.hasFp j a = true := (hasFp_iff _ _ _).2 ⟨v, hxj⟩
+  have hf : c.hasFp j a = true := (ccf_hasFp_iff _ _ _).2 ⟨v, hxj⟩
   unfold present at h
   rcases hp with e | e <;> simp only [← e] at h <;> simp [hf] at h
   split at h <;> cases h
@@ -113,10 +114,10 @@ theorem present_cases {G : Nat → Nat} {c : Cuckoo} (inv : Inv G c) (fp : Nat) 
         countOf c fp = v ∧ (c.bucket i).find? (·.1 == fp) = some (fp, v)) := by
   cases e : c.present (indices G c fp).1 (indices G c fp).2 fp with
   | none =>
-    have := present_none inv e
+    have := ccf_present_none inv e
     exact Or.inl ⟨rfl, this, lookup_of_not_mem this⟩
   | some i =>
-    obtain ⟨hi, v, hv⟩ := present_some e
+    obtain ⟨hi, v, hv⟩ := ccf_present_some e
     have hm := mem_bucket hv
     exact Or.inr ⟨i, v, rfl, hm.1, hi, hv, inv.2.2.2.2.2 _ hm.2, lookup_of_mem inv.2.2.2.1 hm.2,
       bucket_find inv hv⟩
@@ -663,7 +664,7 @@ theorem ccf_exact (G : Nat → Nat) (cap b maxSwaps rate : Nat) (auto : Bool) (f
   rfl
 
 
-/-- **The same statement with kicks and expansions allowed** (stated, not proved here): the
+/-- **The same statement with kicks and expansions allowed** (proved in `CcfKick.lean`): the
     hypothesis `NoKick` is replaced by "no call reported an error", for every oracle.  `0 < rate` is
     needed: with `rate = 0` an automatic expansion of the model produces a table with no buckets
     and silently loses every bin (see the test below; Python raises ZeroDivisionError there). -/
